@@ -619,7 +619,7 @@ func (p *panicky) UnmarshalJSON(b []byte) error {
 // ---------------- (c) hostile replies ----------------
 
 var hostileKinds = []string{"good", "codec0-body", "unknown-codec", "undecodable", "wrong-seq", "negative-seq", "dup-one-write", "dup-delayed", "truncated", "status", "oversize",
-	"call-type-same-seq", "unregistered-filter", "empty-body", "two-different-replies", "status-malformed", "status-malformed-nocodec", "filter-refuses",
+	"call-type-same-seq", "unregistered-filter", "empty-body", "two-different-replies", "status-malformed", "status-malformed-nocodec", "filter-refuses", "early-reply",
 	"pb-good", "pb-length-overflow", "pb-length-huge", "pb-truncated-varint", "pb-wrong-wiretype", "pb-group-end", "pb-empty"}
 
 // pbBodies are reply bodies under the protobuf body codec for a result type with a generated decoder (plugin/secure.Encrypt:
@@ -665,7 +665,30 @@ func runHostile(e *env, kind, resKind string, idx int) {
 	}
 	arg := interface{}(&tok.Arg{Tok: "t", Pay: "p"})
 	cod := byte(codec.ID_JSON)
-	t := m.call(c.Sess, "victim call", "/remote/method", arg, result, erpc.WithBodyCodec(cod))
+	var t *tracked
+	if kind == "early-reply" {
+		// an over-eager (or hostile) peer answers the call's predictable sequence number while the caller is still between
+		// registering the call and writing it: the reply has arrived, so the call completes once the caller goes on
+		erpc.VerifSetSeq(c.Sess, 1000)
+		trap := gates.ParkN("asynccall.afterStore", 1, func(s erpc.Session) bool { return s == c.Sess })
+		t = m.call(c.Sess, "victim call", "/remote/method", arg, result, erpc.WithBodyCodec(cod))
+		if !bed.WaitUntil(10*time.Second, func() bool { return trap.Count() >= 1 }) {
+			trap.Release()
+			gates.Reset()
+			c.Close()
+			settle()
+			core.Result(core.R{ID: id, Verdict: core.Inconclusive, What: "ordering infeasible: the caller did not reach asynccall.afterStore"})
+			return
+		}
+		early := wire.Spec{Seq: 1001, Mtype: erpc.TypeReply, Codec: codec.ID_JSON, Body: []byte(`{"tok":"r","pay":"q"}`), Class: map[string]string{}}
+		if fs, err := rawpeer.Pack(p, early); err == nil {
+			c.Write(bytes.Join(fs, nil))
+		}
+		settle()
+		trap.Release()
+	} else {
+		t = m.call(c.Sess, "victim call", "/remote/method", arg, result, erpc.WithBodyCodec(cod))
+	}
 	settle()
 	got, _ := c.Received()
 	frames, _ := rawpeer.Parse(p, got)
@@ -740,6 +763,8 @@ func runHostile(e *env, kind, resKind string, idx int) {
 		writes = append(writes, b)
 	case "pb-good", "pb-length-overflow", "pb-length-huge", "pb-truncated-varint", "pb-wrong-wiretype", "pb-group-end", "pb-empty":
 		writes = append(writes, pack(mk(seq, codec.ID_PROTOBUF, string(pbBodies[kind]), "")))
+	case "early-reply":
+		// (already delivered above, before the request was written)
 	case "filter-refuses":
 		// a reply through the registered gzip filter whose compressed payload is damaged (checksum / trailer): the filter
 		// refuses it while the frame itself is well-formed and addressed to the pending call
@@ -786,7 +811,7 @@ func runHostile(e *env, kind, resKind string, idx int) {
 	// a complete frame of type REPLY addressed to the pending call has arrived: whatever its content, the call is complete
 	// now (with the reply or an error), with the connection kept or dropped - no further event is needed
 	switch kind {
-	case "codec0-body", "unknown-codec", "undecodable", "dup-one-write", "dup-delayed", "two-different-replies", "status", "empty-body", "status-malformed", "status-malformed-nocodec", "filter-refuses",
+	case "codec0-body", "unknown-codec", "undecodable", "dup-one-write", "dup-delayed", "two-different-replies", "status", "empty-body", "status-malformed", "status-malformed-nocodec", "filter-refuses", "early-reply",
 		"pb-good", "pb-length-overflow", "pb-length-huge", "pb-truncated-varint", "pb-wrong-wiretype", "pb-group-end", "pb-empty":
 		if !(isDone(t.issued) && isDone(t.cmd.Done())) {
 			vs = append(vs, viol{"reply-arrived-call-incomplete", fmt.Sprintf("a complete reply frame addressed to the call was delivered (%s), the process is quiescent, the call is still incomplete", kind)})
